@@ -19,15 +19,24 @@
 EXTENDS Naturals, Integers, Sequences, FiniteSets, TLC
 
 CONSTANTS
+    \* @type: Set({ gen: Bool, nev: Int, ncv: Int });
     Configs,    \* design configs: set of [gen |-> BOOLEAN, nev |-> Nat, ncv |-> Nat]
+    \* @type: Set(Int);
     MaxIt,      \* design configs: set of maxit values compute() may be called with
+    \* @type: Int;
     MaxCalls,   \* design configs: bound on the number of public calls in a history
+    \* @type: Bool;
     V_Refresh,  \* code variant: flags recomputed after the last restart when maxit is exhausted
+    \* @type: Bool;
     V_Resume,   \* code variant: compute() continues from the current dimension instead of from 1
+    \* @type: Bool;
     V_Faults,   \* design configs: the user's operator may throw
+    \* @type: Bool;
     V_InitCheckFirst \* code variant: Arnoldi::init validates the start vector before it writes anything
 
-VARIABLE s
+VARIABLE
+    \* @type: $irs;
+    s
 
 Min(a, b) == IF a < b THEN a ELSE b
 Max(a, b) == IF a > b THEN a ELSE b
@@ -46,6 +55,9 @@ PCs == {"idle",        \* outside any public call
         "c_end"}       \* compute(): about to return
 
 \* A freshly constructed object
+\* (the type annotations in comments are for Apalache, see IRSolverApa.tla; TLC and SANY ignore them)
+\* @typeAlias: irs = { gen: Bool, nev: Int, ncv: Int, pc: Str, k: Int, fnext: Int, fto: Int, ops: Int, niter: Int, info: Str, flags: Int, nconv: Int, restarts: Int, maxit: Int, ktarget: Int, spos: Int, trueOps: Int, ops0: Int, ritzGen: Int, convGen: Int, facOK: Bool, facpre: Bool, misuse: Bool, inited: Bool, ncomp: Int, probing: Bool, calls: Int, exc: Str };
+\* @type: ({ gen: Bool, nev: Int, ncv: Int }) => $irs;
 Fresh(cfg) ==
     [gen |-> cfg.gen, nev |-> cfg.nev, ncv |-> cfg.ncv,
      pc |-> "idle",
@@ -81,6 +93,7 @@ Fresh(cfg) ==
 (* 1 <= k <= ncv - 1 for both families.  NevAdjust.tla transcribes the two  *)
 (* formulas and checks that they satisfy the relation for all arguments.    *)
 (***************************************************************************)
+\* @type: ($irs) => Set(Int);
 KRange(st) == 1 .. (st.ncv - 1)
 ShiftWidth(kind) == IF kind = 2 THEN 2 ELSE 1
 
@@ -89,27 +102,37 @@ ShiftWidth(kind) == IF kind = 2 THEN 2 ELSE 1
 \* then either validates v0 first (V_InitCheckFirst: a rejected init leaves the factorization
 \* as it was) or zeroes H before the check (the factorization is destroyed even if init throws).
 \* facpre remembers whether the factorization was valid when init() was entered.
+\* @type: ($irs) => Bool;
 G_InitBegin(st) == st.pc = "idle"
+\* @type: ($irs) => $irs;
 U_InitBegin(st) ==
     [st EXCEPT !.pc = "init", !.ops = 0, !.niter = 0, !.flags = 0, !.trueOps = 0, !.ops0 = 0,
                !.ritzGen = 0, !.convGen = 0, !.calls = st.calls + 1, !.exc = "none",
                !.facpre = st.facOK, !.facOK = FALSE, !.inited = FALSE, !.misuse = FALSE, !.ncomp = 0]
 
 \* Arnoldi::init rejects a zero vector before it touches m_k (H, V, f are already resized)
+\* @type: ($irs) => Bool;
 G_InitThrowZero(st) == st.pc = "init"
+\* @type: ($irs) => $irs;
 U_InitThrowZero(st) == [st EXCEPT !.pc = "idle", !.exc = "invalid",
                                   !.facOK = IF V_InitCheckFirst THEN st.facpre ELSE FALSE]
 
 \* FacInit: two applications (A v0, A v), step-1 factorization
+\* @type: ($irs, Int, Int) => Bool;
 G_FacInit(st, kk, o) == st.pc = "init" /\ ~st.facOK /\ kk = 1 /\ o = st.ops + 2
+\* @type: ($irs, Int, Int) => $irs;
 U_FacInit(st, kk, o) ==
     [st EXCEPT !.k = kk, !.ops = o, !.trueOps = st.trueOps + 2, !.facOK = TRUE, !.fnext = 0, !.fto = 0]
 
+\* @type: ($irs, Int) => Bool;
 G_InitEnd(st, o) == st.pc = "init" /\ st.k = 1 /\ st.facOK /\ o = st.ops
+\* @type: ($irs, Int) => $irs;
 U_InitEnd(st, o) == [st EXCEPT !.pc = "idle", !.inited = TRUE]
 
 (************************** compute() **************************************)
+\* @type: ($irs, Int) => Bool;
 G_ComputeBegin(st, mx) == st.pc = "idle"
+\* @type: ($irs, Int) => $irs;
 U_ComputeBegin(st, mx) ==
     [st EXCEPT !.pc = "c_fac", !.maxit = mx, !.restarts = 0, !.nconv = 0, !.spos = 0,
                !.calls = st.calls + 1, !.exc = "none", !.ops0 = st.trueOps, !.ncomp = st.ncomp + 1,
@@ -117,109 +140,156 @@ U_ComputeBegin(st, mx) ==
                !.ktarget = IF V_Resume THEN Max(1, st.k) ELSE 1]
 
 \* factorize_from(from, to) with to <= from: nothing to do
+\* @type: ($irs, Int, Int, Int) => Bool;
 G_FacNoop(st, from, to, kk) ==
     st.pc = "c_fac" /\ st.fnext = 0 /\ from = st.ktarget /\ to = st.ncv /\ to <= from /\ kk = st.k /\ st.k = st.ncv
+\* @type: ($irs, Int, Int, Int) => $irs;
 U_FacNoop(st, from, to, kk) == [st EXCEPT !.pc = "c_retr"]
 
 \* factorize_from(from, to) with from > m_k: invalid_argument (compute() without init())
+\* @type: ($irs, Int, Int, Int) => Bool;
 G_FacThrow(st, from, to, kk) ==
     st.pc = "c_fac" /\ st.fnext = 0 /\ from = st.ktarget /\ to = st.ncv /\ from > st.k /\ kk = st.k
+\* @type: ($irs, Int, Int, Int) => $irs;
 U_FacThrow(st, from, to, kk) == [st EXCEPT !.pc = "idle", !.exc = "invalid"]
 
 \* FacBegin: H is truncated to its leading from x from block.  The result is a Krylov
 \* factorization by construction only if it extends the CURRENT dimension (from = k):
 \* with from < k the residual f still belongs to the step-k factorization.
+\* @type: ($irs, Int, Int, Int, Int) => Bool;
 G_FacBegin(st, from, to, kk, o) ==
     /\ st.pc = "c_fac" /\ st.fnext = 0 /\ from = st.ktarget /\ to = st.ncv
     /\ from < to /\ from <= st.k /\ from >= 1 /\ kk = st.k /\ o = st.ops
+\* @type: ($irs, Int, Int, Int, Int) => $irs;
 U_FacBegin(st, from, to, kk, o) ==
     [st EXCEPT !.fnext = from + 1, !.fto = to, !.facOK = (st.facOK /\ from = st.k)]
 
 \* One Arnoldi/Lanczos step producing column i; rs = breakdown restart (expand_basis: one more application)
 StepCost(rs) == IF rs THEN 2 ELSE 1
+\* @type: ($irs, Int, Bool, Int) => Bool;
 G_FacStep(st, i, rs, o) == st.fnext # 0 /\ i = st.fnext /\ i <= st.fto /\ o = st.ops + StepCost(rs)
+\* @type: ($irs, Int, Bool, Int) => $irs;
 U_FacStep(st, i, rs, o) ==
     [st EXCEPT !.fnext = i + 1, !.ops = o, !.trueOps = st.trueOps + StepCost(rs)]
 
+\* @type: ($irs, Int, Int, Int) => Bool;
 G_FacDone(st, to, kk, o) == st.fnext # 0 /\ st.fnext = st.fto + 1 /\ to = st.fto /\ kk = to /\ o = st.ops
+\* @type: ($irs, Int, Int, Int) => $irs;
 U_FacDone(st, to, kk, o) == [st EXCEPT !.k = kk, !.fnext = 0, !.fto = 0, !.pc = "c_retr"]
 
 \* retrieve_ritzpair: new Ritz pairs from the current H (needs the full step-ncv factorization)
+\* @type: ($irs) => Bool;
 G_Retrieve(st) == st.pc = "c_retr" /\ st.k = st.ncv
+\* @type: ($irs) => $irs;
 U_Retrieve(st) ==
     [st EXCEPT !.ritzGen = st.ritzGen + 1, !.pc = IF st.spos = 0 THEN "c_test" ELSE "c_rend"]
 
 \* an unsupported selection rule makes retrieve_ritzpair throw invalid_argument
+\* @type: ($irs) => Bool;
 G_RetrieveThrow(st) == st.pc = "c_retr"
+\* @type: ($irs) => $irs;
 U_RetrieveThrow(st) == [st EXCEPT !.pc = "idle", !.exc = "invalid"]
 
+\* @type: ($irs, Int) => Bool;
 G_RestartEnd(st, kk) == st.pc = "c_rend" /\ kk = st.ktarget
+\* @type: ($irs, Int) => $irs;
 U_RestartEnd(st, kk) == [st EXCEPT !.pc = "c_test", !.restarts = st.restarts + 1, !.spos = 0]
 
 \* num_converged: c flags set.  Inside the loop (restarts < maxit) or, in the V_Refresh variant,
 \* once more after the loop ran out of iterations.
+\* @type: ($irs) => Bool;
 LoopRunning(st) == st.restarts < st.maxit
+\* @type: ($irs, Int) => Bool;
 G_NumConv(st, c) == st.pc = "c_test" /\ c \in 0 .. st.nev /\ (LoopRunning(st) \/ V_Refresh)
+\* @type: ($irs, Int) => $irs;
 U_NumConv(st, c) ==
     [st EXCEPT !.flags = c, !.nconv = c, !.convGen = st.ritzGen,
                !.pc = IF ~LoopRunning(st) \/ c >= st.nev THEN "c_sort" ELSE "c_adj"]
 
 \* loop exhausted and the code does NOT refresh the flags (the design before the fix)
+\* @type: ($irs) => Bool;
 G_SkipRefresh(st) == st.pc = "c_test" /\ ~LoopRunning(st) /\ ~V_Refresh
+\* @type: ($irs) => $irs;
 U_SkipRefresh(st) == [st EXCEPT !.pc = "c_sort"]
 
+\* @type: ($irs, Int, Int) => Bool;
 G_NevAdj(st, nc, kk) == st.pc = "c_adj" /\ nc = st.nconv /\ kk \in KRange(st)
+\* @type: ($irs, Int, Int) => $irs;
 U_NevAdj(st, nc, kk) == [st EXCEPT !.ktarget = kk, !.pc = "c_rst"]
 
+\* @type: ($irs, Int) => Bool;
 G_RestartBegin(st, kk) == st.pc = "c_rst" /\ kk = st.ktarget /\ kk < st.ncv
+\* @type: ($irs, Int) => $irs;
 U_RestartBegin(st, kk) == [st EXCEPT !.pc = "c_shift", !.spos = kk]
 
 \* One implicit shift: kind 1 (single; the tridiagonal class of the Lanczos variant is logged as 3)
 \* lowers the dimension by one and consumes one Ritz position, kind 2 (double) by two, and needs
 \* position spos+1 to exist.
+\* @type: ($irs, Int, Int) => Bool;
 G_CompressH(st, kind, kk) ==
     /\ st.pc = "c_shift" /\ st.spos < st.ncv
     /\ kind \in (IF st.gen THEN {1, 2} ELSE {3})
     /\ st.spos + ShiftWidth(kind) <= st.ncv
     /\ kk = st.k - ShiftWidth(kind) /\ kk >= 1
+\* @type: ($irs, Int, Int) => $irs;
 U_CompressH(st, kind, kk) == [st EXCEPT !.k = kk]
 
 \* Shift(i, kind): the hook at the end of the loop body; i = Ritz position that was used
+\* @type: ($irs, Int, Int) => Bool;
 G_Shift(st, i, kind) == st.pc = "c_shift" /\ i = st.spos /\ i + ShiftWidth(kind) <= st.ncv
+\* @type: ($irs, Int, Int) => $irs;
 U_Shift(st, i, kind) == [st EXCEPT !.spos = i + ShiftWidth(kind)]
 
 \* compress_V: V <- V Q, new residual; the dimension must have come down to exactly ktarget
+\* @type: ($irs, Int) => Bool;
 G_CompressV(st, kk) == st.pc = "c_shift" /\ st.spos = st.ncv /\ kk = st.k /\ kk = st.ktarget
+\* @type: ($irs, Int) => $irs;
 U_CompressV(st, kk) == [st EXCEPT !.pc = "c_fac"]
 
 \* sort_ritzpair (an unsupported sorting rule throws before or inside it)
+\* @type: ($irs) => Bool;
 G_SortBegin(st) == st.pc = "c_sort" /\ ~st.probing
+\* @type: ($irs) => $irs;
 U_SortBegin(st) == [st EXCEPT !.pc = "c_sorting"]
+\* @type: ($irs) => Bool;
 G_SortEnd(st) == st.pc = "c_sorting"
+\* @type: ($irs) => $irs;
 U_SortEnd(st) == [st EXCEPT !.pc = "c_end"]
+\* @type: ($irs) => Bool;
 G_SortThrow(st) == st.pc \in {"c_sort", "c_sorting"}
+\* @type: ($irs) => $irs;
 U_SortThrow(st) == [st EXCEPT !.pc = "idle", !.exc = "invalid"]
 
 \* return: m_niter += i + 1 where i = restarts performed (loop index at exit)
+\* @type: ($irs) => Str;
 InfoOf(st) == IF st.nconv >= st.nev THEN "Successful" ELSE "NotConverging"
+\* @type: ($irs, Int, Str, Int, Int) => Bool;
 G_ComputeEnd(st, r, inf, ni, o) ==
     /\ st.pc = "c_end"
     /\ r = Min(st.nev, st.nconv) /\ o = st.ops /\ inf = InfoOf(st)
     /\ ni = st.niter + st.restarts + 1
+\* @type: ($irs, Int, Str, Int, Int) => $irs;
 U_ComputeEnd(st, r, inf, ni, o) == [st EXCEPT !.pc = "idle", !.info = inf, !.niter = ni]
 
 \* The user's operator throws: possible wherever the next event applies the operator.
 \* The exception unwinds to the caller; members keep whatever was written so far.
 \* (in the generalized modes compress_V also applies the user's B operator: the B-norm of the new residual, at the end of the shift loop)
+\* @type: ($irs) => Bool;
 G_OpThrows(st) == (st.pc = "init" /\ ~st.facOK) \/ st.fnext # 0 \/ st.probing \/ (st.pc = "c_shift" /\ st.spos = st.ncv)
+\* @type: ($irs) => $irs;
 U_OpThrows(st) ==
     [st EXCEPT !.pc = "idle", !.exc = "fault", !.fnext = 0, !.fto = 0, !.facOK = FALSE, !.inited = FALSE, !.probing = FALSE]
 
 \* GenEigsComplexShiftSolver::sort_ritzpair: 2*nev solves at a probe shift between the restart loop and the final sort
+\* @type: ($irs) => Bool;
 G_ProbeBegin(st) == st.pc = "c_sort" /\ ~st.probing
+\* @type: ($irs) => $irs;
 U_ProbeBegin(st) == [st EXCEPT !.probing = TRUE]
+\* @type: ($irs) => Bool;
 G_ProbeStep(st) == st.pc = "c_sort" /\ st.probing
+\* @type: ($irs) => Bool;
 G_ProbeEnd(st) == st.pc = "c_sort" /\ st.probing
+\* @type: ($irs) => $irs;
 U_ProbeEnd(st) == [st EXCEPT !.probing = FALSE]
 
 (***************************************************************************)
@@ -281,6 +351,7 @@ FairSpec == Spec /\ WF_s(SolverStep)
 (* Properties (predicates over a state record, so that TraceIR can evaluate *)
 (* them on every state of a recorded execution as well)                     *)
 (***************************************************************************)
+\* @type: ($irs) => Bool;
 TypeOKs(st) ==
     /\ st.pc \in PCs /\ st.k \in 0 .. st.ncv /\ st.fnext \in 0 .. st.ncv + 1 /\ st.fto \in 0 .. st.ncv
     /\ st.flags \in 0 .. st.nev /\ st.nconv \in 0 .. st.nev
@@ -289,23 +360,32 @@ TypeOKs(st) ==
 
 \* C01/C02: whatever is handed back as converged was tested on the Ritz pairs that are returned,
 \* and those come from a factorization that is valid by construction
+\* @type: ($irs) => Bool;
 P_ReturnedAreFresh(st) == (st.pc = "c_end" /\ st.flags > 0 /\ ~st.misuse) => (st.convGen = st.ritzGen /\ st.facOK)
 \* C05
+\* @type: ($irs) => Bool;
 P_CountsAgree(st) ==
     /\ st.flags <= st.nev
     /\ (st.pc = "c_end" => st.nconv = st.flags)
     /\ (st.ritzGen = 0 /\ st.pc \in {"idle", "init"} /\ st.exc # "fault" => st.flags = 0 \/ ~st.inited)
+\* @type: ($irs) => Bool;
 P_OpsCounted(st) == st.ops = st.trueOps
+\* @type: ($irs) => Bool;
 P_RestartsBounded(st) == st.restarts <= st.maxit
 \* C13: work bound per compute(): 2*ncv*(maxit+1) applications (2 more for init), dimension in range
+\* @type: ($irs) => Bool;
 P_WorkBound(st) == (st.pc \notin {"idle", "init"}) => st.trueOps - st.ops0 <= 2 * st.ncv * (st.maxit + 1)
+\* @type: ($irs) => Bool;
 P_KInRange(st) == (st.pc \notin {"idle", "init"} /\ st.facOK) => (st.k >= 1 /\ st.k <= st.ncv)
+\* @type: ($irs) => Bool;
 P_ShiftInRange(st) == st.pc = "c_shift" => (st.spos >= 1 /\ st.spos <= st.ncv /\ st.k >= st.ktarget /\ st.k >= 1)
 \* C06/C14: a successful init() leaves exactly the state a fresh object has after init()
+\* @type: ($irs) => Bool;
 P_InitMakesFresh(st) ==
     (st.pc = "idle" /\ st.inited /\ st.ncomp = 0) =>
         (st.k = 1 /\ st.ops = 2 /\ st.niter = 0 /\ st.flags = 0 /\ st.trueOps = 2 /\ st.facOK /\ st.fnext = 0)
 \* a compute() that follows a successful init() never hits the from_k guard
+\* @type: ($irs) => Bool;
 P_NoFacThrowAfterInit(st) == (st.pc = "c_fac" /\ st.inited) => st.ktarget <= st.k
 
 TypeOK == TypeOKs(s)
